@@ -82,6 +82,8 @@ type ChanObj struct {
 	Buf    []Val
 	Cap    int
 	Closed bool
+	Ticker bool // fed by the environment (time.Ticker): may deliver while Budget > 0
+	Budget int
 }
 
 // Opaque wraps a Go value owned by an intrinsic model (os.File, time, reflect ...).
